@@ -154,6 +154,8 @@ class Tensor:
         else:
             result = self
         for axis, value in non_scalar_indices:
+            # The axes indexed by a scalar have been removed.
+            axis -= sum(1 for squeezed in to_squeeze if squeezed < axis)
             result = op.Gather(result, value, axis=axis)
 
         return result
